@@ -8,7 +8,8 @@ checks = sys.argv[5:]
 dst = "/verif/seeded/" + sid
 os.makedirs(dst, exist_ok=True)
 (shutil.copy(patch, dst + "/patch.diff") if os.path.abspath(patch) != os.path.abspath(dst + "/patch.diff") else None)
-(shutil.copy(demo, dst + "/demo.rs") if os.path.abspath(demo) != os.path.abspath(dst + "/demo.rs") else None)
+ext = ".sh" if open(demo).read(2) == "#!" else ".rs"
+(shutil.copy(demo, dst + "/demo" + ext) if os.path.abspath(demo) != os.path.abspath(dst + "/demo" + ext) else None)
 m = json.load(open(meta))
 subprocess.run(["git", "-C", "/repo", "checkout", "--", "."], check=True)
 r = subprocess.run(["git", "-C", "/repo", "apply", dst + "/patch.diff"], capture_output=True, text=True)
